@@ -150,7 +150,7 @@ def build_part(step, alter, octave):
 def plan(tier, seed):
     items = [["table", s, a] for s in "CDEFGAB" for a in range(-2, 3)]
     items += [["chordroots"]]
-    items += [["gen", i] for i in range(32 if tier == "quick" else 400)]
+    items += [["gen", i] for i in range(160 if tier == "quick" else 1600)]
     return items
 
 
@@ -220,10 +220,22 @@ def run_item(ctx, item):
         from workloads import gen_score
         rng = ctx.rng("gen", item[1])
         sc = gen_score.make_score(rng, profile="pitchy")
-        number, q = rng.choice(P.interval_classes())
+        number, q = rng.choice(P.interval_classes()) if rng.random() < 0.5 else rng.choice(
+            [ic for ic in P.interval_classes() if ic[1] in ("P", "M", "m")])          # (the common intervals stay inside the domain)
         direction = rng.choice(["up", "down"])
         iv = S.Interval(number, q, direction)
-        arg = sc if rng.random() < 0.5 else sc.parts[rng.randrange(len(sc.parts))]
+        edited = False
+        if rng.random() < 0.2:
+            # a score whose list of parts was edited after it was built (item assignment / append are public): what is
+            # transposed is what score.parts holds now
+            other, _ = gen_score.make_part(rng, "PX", profile="pitchy")
+            if rng.random() < 0.5:
+                sc[rng.randrange(len(sc.parts))] = other
+            else:
+                sc.parts.append(other)
+            edited = True
+            ctx.extra["scores_with_parts_replaced_after_construction"] += 1
+        arg = sc if (edited or rng.random() < 0.5) else sc.parts[rng.randrange(len(sc.parts))]
         notes = pitched(arg)
         exp = [P.transpose(n.step, n.alter, n.octave, number, q, direction) for n in notes]
         dom = all(abs(e[1]) <= 2 for e in exp)
